@@ -1,3 +1,3 @@
 SPECIFICATION Spec
 CONSTANT W = 4
-INVARIANTS EachSettingOwnIffOptedOut ForeignRequestGetsGlobal
+INVARIANTS EachSettingOwnIffOptedOut OptedOutAndPausedBlocksNothing ForeignRequestGetsGlobal
